@@ -12,7 +12,8 @@ From Coq Require Import String.
 From Coq Require Import List ZArith NArith Bool Lia Arith.
 From Tele Require Import Lib.Bytes Lib.FS Model.Span Model.Uploader
   Proofs.FSFacts Proofs.UploaderBase Proofs.UploaderNames Proofs.UploaderFiles Proofs.UploaderData
-  Proofs.UploaderEver Proofs.UploaderSeq Proofs.UploaderIdem Proofs.UploaderNoDup Proofs.UploaderLocal.
+  Proofs.UploaderEver Proofs.UploaderSeq Proofs.UploaderIdem Proofs.UploaderNoDup Proofs.UploaderLocal
+  Proofs.UploaderDates.
 Import ListNotations.
 Open Scope nat_scope.
 
@@ -41,6 +42,26 @@ Theorem C07_one_report_per_week :
     r_week r = W /\ r_up r = false /\ forall n cf, In (n, cf) (r_files r) <-> wfile f W n cf.
 Proof. exact one_report_per_week. Qed.
 Print Assumptions C07_one_report_per_week.
+
+(* the same with the substring premise discharged: all end times of the
+   directory's parseable count files (and W's) lie in the years 0..9999 *)
+Theorem C07_one_report_per_week_dates :
+  forall (f : FS) (c : ucfg) (e0 : Z),
+  let W := uploader_week e0 in
+  fs_wf f -> in_range e0 ->
+  (forall n id ct cf, d_find (f_local f) n = Some (id, ct) -> parse ct = Some cf -> in_range (cf_end cf)) ->
+  d_mem (f_local f) (local_name W) = false ->
+  d_mem (f_local f) (ready_name W) = false ->
+  d_mem (up_dir f) (marker_name W) = false ->
+  (forall g, d_mem (f_local f) g = true -> collect_ready c g = true -> contains g W = false) ->
+  (forall n cf, wfile f W n cf -> before_start (cf_end cf) (u_start c) = true) ->
+  (exists n cf, wfile f W n cf /\ cf_counts cf <> []) ->
+  forall sched t, s_ths (run sched (init_state f [c])) = [t] -> t_pc t = Done ->
+  exists id r,
+    d_find (f_local (s_fs (run sched (init_state f [c])))) (local_name W) = Some (id, CRep (Some r)) /\
+    r_week r = W /\ r_up r = false /\ forall n cf, In (n, cf) (r_files r) <-> wfile f W n cf.
+Proof. exact one_report_per_week_dates. Qed.
+Print Assumptions C07_one_report_per_week_dates.
 
 (* ---- delete_only_after_report: when a step removes a count file n, then at
         this or an earlier state of the run a report for the remover's current
